@@ -43,12 +43,16 @@ STAGES = {
                  "information each request carries; model-checked incl. liveness, seven broken variants refuted, interleavings replayed step by "
                  "step on the real Server built through the public builder, random walks incl. real TCP/Unix listeners; TLC evaluates this "
                  "property's clauses)."),
+    "upgrade": ("The check also runs the Upgrade.tla stage (explicit TLA+ spec of HTTP/1 upgrades and CONNECT tunnels end to end: pool view, "
+                "token-level byte path with sniffer prefix and early bytes, shutdown; model-checked, eleven broken variants refuted, generated "
+                "and random scenarios run on the real Client against the real Server over duplex with a fragmenting relay; TLC evaluates this "
+                "property's clauses)."),
     "sniffbytes": ("The check also runs the replay domain of Sniff.tla on the real auto-detecting connection and reports the falsified `bytes` "
                    "clause (what the handler reads behind the sniffer + rewind assembly is exactly what the client wrote)."),
 }
 USES = {"C07": ["tlsstream", "conninfo"], "C09": ["tlsstream", "duplex", "conninfo"], "C12": ["tlsstream"], "C20": ["tlsstream", "conninfo"],
-        "C18": ["sniffbytes", "duplex", "tlsstream"], "C10": ["tcpcall"], "C11": ["tcpcall"], "C17": ["tcpcall", "body", "connector"],
-        "C01": ["body", "conninfo"], "C03": ["connector"], "C13": ["connector"], "C19": ["connector"]}
+        "C18": ["sniffbytes", "duplex", "tlsstream", "upgrade"], "C02": ["upgrade"], "C10": ["tcpcall"], "C11": ["tcpcall"], "C17": ["tcpcall", "body", "connector"],
+        "C01": ["body", "conninfo", "upgrade"], "C03": ["connector"], "C13": ["connector", "upgrade"], "C19": ["connector"]}
 for c in m['checks']:
     for st in USES.get(c['property_id'], []):
         if STAGES[st] not in c['level_claimed']['text']:
